@@ -4,6 +4,8 @@
 package vsync
 
 import (
+	"fmt"
+	"sort"
 	"sync"
 
 	"verif/sched"
@@ -149,4 +151,25 @@ func (m *Map) CompareAndDelete(k, o any) bool {
 	sched.Point("Map.CompareAndDelete")
 	return m.m.CompareAndDelete(k, o)
 }
-func (m *Map) Range(f func(k, v any) bool) { sched.Point("Map.Range"); m.m.Range(f) }
+// Range visits the entries in a DETERMINISTIC order (sorted by the printed key). sync.Map promises no order and
+// no consistent snapshot, so a fixed order over a snapshot is one of the behaviours the real type may show;
+// harnesses that number the steps of an execution (fault enumeration) need the same order in every run and
+// cover other orders by renaming the keys.
+func (m *Map) Range(f func(k, v any) bool) {
+	sched.Point("Map.Range")
+	type kv struct {
+		s    string
+		k, v any
+	}
+	var all []kv
+	m.m.Range(func(k, v any) bool {
+		all = append(all, kv{fmt.Sprintf("%T:%v", k, k), k, v})
+		return true
+	})
+	sort.Slice(all, func(i, j int) bool { return all[i].s < all[j].s })
+	for _, e := range all {
+		if !f(e.k, e.v) {
+			return
+		}
+	}
+}
